@@ -18,6 +18,9 @@ type c06Case struct {
 	Profile string `json:"profile"`
 	Data    string `json:"data"`
 	Procs   bool   `json:"fresh_processes"` // also compare across fresh processes and `acv generate`
+	// Before lists inputs validated in this process before the subject: another profile (and its data) that binds
+	// the prefix name the subject uses to another namespace. A fresh process has no such history.
+	Before [][2]string `json:"before,omitempty"`
 }
 
 func genC06(t *rapid.T) c06Case {
@@ -44,7 +47,21 @@ func genC06(t *rapid.T) c06Case {
 		sm.Conflicts = rapid.Bool().Draw(t, "conflicts")
 		data = sm.Attach(gr).JSONLD(genLDOpts(t, 0))
 	}
-	return c06Case{Profile: p.ToY().Print(m.YOpts{}), Data: data, Procs: rapid.IntRange(0, 3).Draw(t, "procs") == 0}
+	c := c06Case{Profile: p.ToY().Print(m.YOpts{}), Data: data, Procs: rapid.IntRange(0, 3).Draw(t, "procs") == 0}
+	// process history: the subject relies on a built-in prefix; earlier in the same process a profile with the
+	// same terms bound that name to its own namespace. Fresh processes are the reference.
+	if rapid.IntRange(0, 3).Draw(t, "history") == 0 {
+		name := genBuiltinName(t)
+		if subj, ok := onBuiltinPrefix(c.Profile, name, ""); ok {
+			other := "http://other.example.org/vocab/" + name + "#"
+			if intr, ok2 := onBuiltinPrefix(c.Profile, name, other); ok2 {
+				c.Before = append(c.Before, [2]string{intr, dataOnNamespace(c.Data, other)})
+				c.Profile, c.Data = subj, dataOnNamespace(c.Data, builtinNS[name])
+				c.Procs = true
+			}
+		}
+	}
+	return c
 }
 
 // TestHelperValidate is the body of the fresh-process runs: it validates the
@@ -113,6 +130,11 @@ func firstDiff(a, b string) string {
 
 func decideC06(c c06Case) ev.Verdict {
 	const R, G = 6, 8
+	for _, b := range c.Before {
+		if r := validateFixed(b[0], b[1]); r.failed() {
+			return ev.Violation("c06-call-failed:"+classifyErr(r), "validation of the earlier profile failed: %s\n%s", trunc(r.errString(), 400), b[0])
+		}
+	}
 	first := validateFixed(c.Profile, c.Data)
 	if first.failed() {
 		return ev.Violation("c06-call-failed:"+classifyErr(first), "validation failed: %s\n%s", trunc(first.errString(), 400), c.Profile)
@@ -142,6 +164,9 @@ func decideC06(c c06Case) ev.Verdict {
 		}
 	}
 	labels := []string{"in-process"}
+	if len(c.Before) > 0 {
+		labels = append(labels, "after-a-profile-rebinding-the-built-in-prefix")
+	}
 	if c.Procs {
 		for i := 0; i < 3; i++ {
 			r, err := freshProcessReport(c, i)
